@@ -1,6 +1,7 @@
 # edited by hand as checks land
 _T = "Every listed obligation is decided by z3 over all integer values of its symbolic inputs within the stated skeleton bound (a bounded, not an unbounded, claim); "
 CLAIMED = {
+ "C14": ("DESIGN.md#c14", _T + "rank ids, authoritative shape re-arrangement (symbolic shape entries), leaf default, formats, mutability after every transform; stored coordinates inside shape and active range; rank id / active range of lazy results; attribute replacement on joining a tensor."),
  "C10": ("DESIGN.md#c10", _T + "operand snapshots (tree, rank lists, ids, shape, default, formats) unchanged by every value-returning and read-only operation, no shared Fiber/Payload/Rank/RankAttrs object, follow-up mutations invisible across the pair. Rendering itself is outside the claim."),
  "C09": ("DESIGN.md#c09", _T + "content of every transform result equals the image of the operand content under the stated coordinate map (merges reduce collisions), inverses restore equal tensors, results are well-formed tensors; swizzle on boxes with symbolic values incl. explicit zeros and all-zero rows."),
  "C08": ("DESIGN.md#c08", _T + "all four split kinds (and /, //) against an interval/halo/active-range specification computed loop-free from the element list, relative coordinates, per-partition active ranges, re-splits, depth-1 splits through the Tensor API."),
